@@ -45,6 +45,12 @@ def run(ctx):
     cov, failures = run_stream(ctx, "C05")
     mres = moves_phase(ctx)
     failures += [f for f in mres["failures"] if f["finding"].startswith("C05:")]
+    import vlib
+    for f in mres["failures"]:
+        if f["finding"].startswith("dup:"):
+            vlib.log("NOTE (beyond the listed properties): client.DuplicateNode - %s %s" % (f["what"], f.get("case")))
+    if isinstance(cov.get("extra"), dict):
+        cov["extra"]["composite_operations"] = mres.get("extra")
     cov["evaluations"] += mres["evaluations"]
     cov["traces_validated_against_impl"] += mres["traces"]
     cov["role1"] = cov.get("role1", []) + [{"cfg": "MC_Store_ascoded_move.cfg", "must_violate": "MovesAtomicAsCoded", "violated": True}]
@@ -56,7 +62,11 @@ def run(ctx):
                                  "for every node, old and new parent from every reachable state, and that a move without the up-front check "
                                  "must fail; client.MoveNode / client.MirrorNode are called for every (node, old parent, new parent) from "
                                  "the start shapes: predicted refusals must return an error, leave the dump (points, edges, hashes) unchanged "
-                                 "and publish nothing; accepted ones must give the predicted placements and hashes in step with the content.")
+                                 "and publish nothing; accepted ones must give the predicted placements and hashes in step with the content. "
+                                 "client.DuplicateNode (Store!DupCopies, beyond the listed properties, reported only): for every node and new "
+                                 "parent from the start shapes the copy must be the tree of downward live paths with the points of the originals, "
+                                 "refused when the node has no live placement; as coded the call never returns when the new parent lies below "
+                                 "the node (the as-coded model predicts exactly these cases).")
     return {"coverage": cov, "failures": failures,
             "assumptions": ["CRC collisions abstracted away in the model (free XOR algebra); check (i) is concrete",
                             "writes with parent 'root' for non-root nodes (root replacement) are outside the alphabet"]}
